@@ -22,6 +22,7 @@ structure SdState where
   held : List (Nat × String) := []    -- handler index ↦ "auth" | "added"
   closeStarted : Bool := false
   closerHeld : Bool := false
+  inited : Bool := false              -- `sd.new` has run
 
 def sdPc (s : Sys) (i : Nat) : Option HPc := (s.hs[i]?).map (·.pc)
 
@@ -85,7 +86,8 @@ def sdRender (st : SdState) (ord : String) : String :=
   let cl := match s.cpc with
     | .closeDone => "n"
     | .returned => "r"
-    | .wgWait => "w"
+    | .wgWait | .wgBlocked => "w"
+    | .panicked => "x"
     | _ => "p"
   let ls := (List.range st.nl).map fun l =>
     s!"l{l}=e{boolStr (s.ended.contains l)}n{boolStr (s.netClosed.contains l)}"
@@ -109,8 +111,16 @@ def sdModelOrd (st : SdState) : String :=
   let v := st.sys.ended.reverse
   if v.isEmpty then "-" else String.join (v.map toString)
 
-/-- C36 on what the REAL broker reported at a `sd.status` -/
-def sdVerdict (impl : String) : String :=
+/-- the model's handler for connection `c<n>` (for the finding signatures, which are predicates over the
+    schedule: *when* did this handler count itself / register, relative to the closer) -/
+def sdHandlerOf (st : SdState) (name : String) : Option H :=
+  ((name.drop 1).toString.toNat?).bind fun n => (st.idx.lookup n).bind fun i => st.sys.hs[i]?
+
+/-- C36 on what the REAL broker reported at a `sd.status`. A failure is attributed to a recorded finding
+    only when the schedule is the finding's: F36b = the unfinished handler had not executed
+    `ClientsWg.Add(1)` when `Wait` returned; F36a = the client still served registered after its
+    listener's clients were enumerated. Any other failure carries no signature. -/
+def sdVerdict (st : SdState) (impl : String) : String :=
   let toks := impl.splitOn " "
   let cl := (kvGet toks "close").getD "?"
   let connToks := toks.filter fun t => t.startsWith "c" && !t.startsWith "close="
@@ -125,8 +135,11 @@ def sdVerdict (impl : String) : String :=
       (conns.flatMap fun (name, fs) =>
         let h := fld fs "h"
         let v5 := fs.contains "v5"
-        (if h == "a" then [s!"FAIL[C36|F36b] Close has returned and the handler spawned for connection {name} has not started: it will run against the closed server"] else []) ++
-        (if h == "r" then [s!"FAIL[C36|F36b] Close has returned while the handler of connection {name} is running (closed={fld fs "closed"}, CONNACK={fld fs "ack"})"] else []) ++
+        let sigB := match sdHandlerOf st name with
+          | some m => if m.addBeforeWait then "-" else "F36b"
+          | none => "-"
+        (if h == "a" then [s!"FAIL[C36|{sigB}] Close has returned and the handler spawned for connection {name} has not started: it will run against the closed server"] else []) ++
+        (if h == "r" then [s!"FAIL[C36|{sigB}] Close has returned while the handler of connection {name} is running (closed={fld fs "closed"}, CONNACK={fld fs "ack"})"] else []) ++
         (if h == "f" && fld fs "closed" == "0" then [s!"FAIL[C36|-] handler of {name} finished and its connection is open"] else []) ++
         (if v5 && fld fs "ack" == "1" && fld fs "closed" == "s" && fld fs "disc" != "8b" then
            [s!"FAIL[C36|-] MQTT 5 client {name} was closed by the broker without DISCONNECT 0x8B (disc={fld fs "disc"})"] else [])) ++
@@ -134,19 +147,22 @@ def sdVerdict (impl : String) : String :=
     else if cl == "w" then
       conns.flatMap fun (name, fs) =>
         if fld fs "h" == "r" && fld fs "ack" == "1" && fld fs "closed" == "0" then
-          [s!"FAIL[C36|F36a] Close is blocked in ClientsWg.Wait: connection {name} was registered after its listener's clients were enumerated, holds a CONNACK, was never disconnected and is being served by a broker that is shutting down"]
+          let sigA := match sdHandlerOf st name with
+            | some m => if m.registered && !m.regBeforeSnap then "F36a" else "-"
+            | none => "-"
+          [s!"FAIL[C36|{sigA}] Close is blocked in ClientsWg.Wait: connection {name} holds a CONNACK, was never disconnected and is being served by a broker that is shutting down (F36a: it registered after its listener's clients were enumerated)"]
         else []
     else []
   if items.isEmpty then "ok" else "; ".intercalate items
 
 def sdFinish (st : SdState) (impl : String) (isStatus : Bool) : SdState × String × String × String :=
   let st := sdQuiesce st 12
-  (st, sdRender st (sdModelOrd st), if isStatus then sdVerdict impl else "ok", "-")
+  (st, sdRender st (sdModelOrd st), if isStatus then sdVerdict st impl else "ok", "-")
 
-def shutdownOp (st : SdState) (impl : String) : List String → Option (SdState × String × String × String)
+def shutdownOp' (st : SdState) (impl : String) : List String → Option (SdState × String × String × String)
   | "sd.new" :: kv =>
     let nl := kvNatD kv "nl" 1
-    let st : SdState := { nl := nl, sys := start (List.range nl) [] }
+    let st : SdState := { nl := nl, sys := start (List.range nl) [], inited := true }
     some (sdFinish st impl false)
   | ["sd.accept", n, ver, l] => do
     let n ← n.toNat?; let ver ← ver.toNat?; let l ← l.toNat?
@@ -205,5 +221,21 @@ def shutdownOp (st : SdState) (impl : String) : List String → Option (SdState 
     some (sdFinish { st with closerHeld := false } impl false)
   | ["sd.status"] => some (sdFinish st impl true)
   | _ => none
+
+/-- `sd.race`: a race on the real broker, not a schedule the harness can force (the window is inside
+    `sync.WaitGroup`); the model has both outcomes (`C36_wait_reuse_panic_counterexample` and the runs in
+    which `Wait` wakes first), so the answer is taken as it comes and judged -/
+def sdRace (impl : String) : String × String × String :=
+  if (impl.splitOn " ").contains "panic=1" then
+    (impl, "FAIL[C36|F36c] Server.Close panicked in ClientsWg.Wait: a handler spawned by the listener executed ClientsWg.Add(1) between the Done that released Wait and Wait waking up (" ++ impl ++ ")", "-")
+  else (impl, "ok", "-")
+
+def shutdownOp (st : SdState) (impl : String) (ws : List String) : Option (SdState × String × String × String) :=
+  match ws with
+  | "sd.race" :: _ => let r := sdRace impl; some (st, r.1, r.2.1, r.2.2)
+  | op :: _ =>
+    if op.startsWith "sd." && op != "sd.new" && !st.inited then some (st, "no-server", "ok", "-")
+    else shutdownOp' st impl ws
+  | [] => none
 
 end Mochi.Driver
